@@ -933,7 +933,37 @@ class ImplViz(ImplGen):
         names = list(by_name)
         # a hostile directory listing: reversed
         order = load_order(list(reversed(names)))
-        return f"xlim {seen.get('xlim', 0)} " + " / ".join(by_name[n] for n in order)
+        direct = f"xlim {seen.get('xlim', 0)} " + " / ".join(by_name[n] for n in order)
+
+        # the same through the GanttChartCreator facade, which lives across episodes: it is created on the fresh
+        # dispatcher, an earlier (abandoned) episode is played and reset, then the recorded history is played
+        from job_shop_lib.visualization import GanttChartCreator
+        d2 = jsl.Dispatcher(self.instance)
+        tmp = _tempfile.mkdtemp(prefix="verif_frames_")
+        creator = GanttChartCreator(d2, gif_config={"frames_dir": tmp, "remove_frames": False,
+                                                    "gif_path": _os.path.join(tmp, "x.gif")})
+        for j, p, m in hist[:max(1, len(hist) // 2)]:
+            d2.dispatch(self.instance.jobs[j][p], m)
+        d2.reset()
+        for j, p, m in hist:
+            d2.dispatch(self.instance.jobs[j][p], m)
+        sink.clear()
+        seen.clear()
+        creator.partial_gantt_chart_plotter = plot_function
+        old_gif = _vid.create_gif_from_frames
+        _vid.create_gif_from_frames = lambda *a, **k: None
+        _vid.plt.close = lambda *a, **k: None
+        try:
+            creator.create_gif()
+        finally:
+            _vid.plt.close = old_close
+            _vid.create_gif_from_frames = old_gif
+            import shutil as _shutil
+            _shutil.rmtree(tmp, ignore_errors=True)
+        by_name = {_os.path.basename(f): payload for f, payload in sink}
+        order = load_order(list(reversed(list(by_name))))
+        facade = f"xlim {seen.get('xlim', 0)} " + " / ".join(by_name[n] for n in order)
+        return direct if facade == direct else facade
 
 
 # ----------------------------------------------------------------------------------- Gymnasium environments (C18)
